@@ -26,6 +26,7 @@ for n in sorted(os.listdir(SEEDED)):
 table = "| change | what it breaks | needs | caught by (quick tier) | confirmed (suite passes, demo fails/passes) |\n|---|---|---|---|---|\n" + "\n".join(rows)
 p = os.path.join(VERIF, "DESIGN.md")
 s = open(p).read()
-s = re.sub(r"<!-- SEEDED-TABLE -->.*?<!-- /SEEDED-TABLE -->", "<!-- SEEDED-TABLE -->\n" + table + "\n<!-- /SEEDED-TABLE -->", s, flags=re.S)
+repl = "<!-- SEEDED-TABLE -->\n" + table + "\n<!-- /SEEDED-TABLE -->"
+s = re.sub(r"<!-- SEEDED-TABLE -->.*?<!-- /SEEDED-TABLE -->", lambda m: repl, s, flags=re.S)
 open(p, "w").write(s)
 print(len(rows), "rows")
